@@ -178,12 +178,33 @@ theorem reactivate_task_exists (w w' : World) (i p : Nat) (h : reactivate w i = 
 
 /-! ### with-items index selection -/
 
-theorem range'_eq_nil_of_zero (a : Nat) : List.range' a 0 = [] := rfl
+theorem completed_not_inflight (s : St) (h : isCompleted s = true) :
+    isRunning s = false ∧ isIdle s = false := by
+  cases s <;> first | exact ⟨by decide, by decide⟩ | exact absurd h (by decide)
 
 theorem getLast?_filter_range_succ (p : Nat → Bool) (n : Nat) (h : p n = true) :
     ((List.range (n + 1)).filter p).getLast? = some n := by
   rw [List.range_succ, List.filter_append]
   simp [h]
+
+/-- nothing after the last element of `filter p (range n)` satisfies `p` -/
+theorem getLast?_filter_range_bound (p : Nat → Bool) :
+    ∀ (n m : Nat), ((List.range n).filter p).getLast? = some m → ∀ i, m < i → i < n → p i = false := by
+  intro n
+  induction n with
+  | zero => intro m _ i _ hi; omega
+  | succ k ih =>
+    intro m hm i hmi hi
+    rw [List.range_succ, List.filter_append] at hm
+    by_cases hk : p k = true
+    · simp [hk] at hm
+      omega
+    · have hk' : p k = false := by simpa using hk
+      have hnil : List.filter p [k] = [] := by simp [hk']
+      rw [hnil, List.append_nil] at hm
+      by_cases hik : i = k
+      · subst hik; exact hk'
+      · exact ih m hm i hmi (by omega)
 
 /-- if the last item is a candidate, exactly the candidates are started (unlimited capacity) -/
 theorem nextIndexes_last_cand (acts : List Act) (n : Nat) (h : isCand acts n = true) :
@@ -202,9 +223,98 @@ theorem nextIndexes_all_cand (acts : List Act) (n : Nat) (h : ∀ i < n, isCand 
     intro a ha
     exact h a (List.mem_range.mp ha)
 
-theorem accIdx_reset_true (acts : List Act) : accIdx (resetActs true acts) = [] := by
-  unfold accIdx resetActs
-  simp [List.filter_map, Function.comp_def]
+/-- when every index below `count` is either taken or a candidate and there is a candidate,
+    exactly the candidates are started -/
+theorem nextIndexes_cands_only (acts : List Act) (n : Nat)
+    (h : ∀ i < n, taken acts i = true ∨ isCand acts i = true)
+    (hne : ∃ j < n, isCand acts j = true) :
+    nextIndexes acts n none = (List.range n).filter (isCand acts) := by
+  obtain ⟨j, hj, hcj⟩ := hne
+  have hmem : j ∈ (List.range n).filter (isCand acts) :=
+    List.mem_filter.mpr ⟨List.mem_range.mpr hj, hcj⟩
+  cases hl : ((List.range n).filter (isCand acts)).getLast? with
+  | none =>
+    rw [List.getLast?_eq_none_iff] at hl
+    rw [hl] at hmem
+    cases hmem
+  | some m =>
+    unfold nextIndexes
+    simp only [hl]
+    have : (List.range' (m + 1) (n - (m + 1))).filter (fun i => !taken acts i) = [] := by
+      rw [List.filter_eq_nil_iff]
+      intro i hi
+      rw [List.mem_range'_1] at hi
+      have hc := getLast?_filter_range_bound (isCand acts) n m hl i (by omega) (by omega)
+      rcases h i (by omega) with ht | hc'
+      · simp [ht]
+      · rw [hc] at hc'; cases hc'
+    rw [this]
+    simp
+
+/-- nothing that is taken (accepted or in progress) is ever started again (candidate branch) -/
+theorem nextIndexes_not_taken (acts : List Act) (n : Nat) (cap : Option Nat) (i : Nat)
+    (hne : ∃ j < n, isCand acts j = true) (hi : i ∈ nextIndexes acts n cap) :
+    taken acts i = false := by
+  obtain ⟨j, hj, hcj⟩ := hne
+  have hmem : j ∈ (List.range n).filter (isCand acts) :=
+    List.mem_filter.mpr ⟨List.mem_range.mpr hj, hcj⟩
+  cases hl : ((List.range n).filter (isCand acts)).getLast? with
+  | none =>
+    rw [List.getLast?_eq_none_iff] at hl
+    rw [hl] at hmem
+    cases hmem
+  | some m =>
+    unfold nextIndexes at hi
+    simp only [hl] at hi
+    have hi' : i ∈ (List.range n).filter (isCand acts) ++
+        (List.range' (m + 1) (n - (m + 1))).filter (fun i => !taken acts i) := by
+      cases cap with
+      | none => exact hi
+      | some c => exact List.mem_of_mem_take hi
+    rcases List.mem_append.mp hi' with h1 | h1
+    · have := (List.mem_filter.mp h1).2
+      unfold isCand at this
+      simp only [Bool.and_eq_true, Bool.not_eq_true'] at this
+      exact this.2
+    · have := (List.mem_filter.mp h1).2
+      simpa using this
+
+theorem mem_resetActs (r : Bool) (acts : List Act) (a : Act) (ha : a ∈ acts) :
+    ∃ a' ∈ resetActs r acts, a'.idx = a.idx ∧ a'.state = a.state := by
+  unfold resetActs
+  refine ⟨_, List.mem_map.mpr ⟨a, ha, rfl⟩, ?_, ?_⟩ <;> (split <;> rfl)
+
+theorem taken_or_cand (acts : List Act) (i : Nat)
+    (h : ∃ a ∈ acts, a.idx = i ∧ isCompleted a.state = true) :
+    taken acts i = true ∨ isCand acts i = true := by
+  obtain ⟨a, ha, hi, hc⟩ := h
+  by_cases ht : taken acts i = true
+  · exact Or.inl ht
+  · right
+    have ht' : taken acts i = false := by simpa using ht
+    unfold isCand
+    rw [ht']
+    simp only [Bool.not_false, Bool.and_true, List.contains_iff_mem]
+    unfold unaccIdx
+    refine List.mem_map.mpr ⟨a, List.mem_filter.mpr ⟨ha, ?_⟩, hi⟩
+    have hacc : a.accepted = false := by
+      cases hacc : a.accepted with
+      | false => rfl
+      | true =>
+        have : taken acts i = true := by
+          unfold taken
+          exact List.any_eq_true.mpr ⟨a, ha, by simp [hi, hacc]⟩
+        rw [this] at ht'; cases ht'
+    simp [hacc, hc]
+
+theorem taken_reset_true (acts : List Act) (i : Nat)
+    (hall : ∀ a ∈ acts, isCompleted a.state = true) : taken (resetActs true acts) i = false := by
+  unfold taken resetActs
+  rw [List.any_eq_false]
+  intro a' ha'
+  obtain ⟨a, ha, rfl⟩ := List.mem_map.mp ha'
+  have := completed_not_inflight a.state (hall a ha)
+  simp [this.1, this.2]
 
 theorem unaccIdx_reset_true (acts : List Act) (i : Nat)
     (h : ∃ a ∈ acts, a.idx = i ∧ isCompleted a.state = true) :
@@ -215,12 +325,12 @@ theorem unaccIdx_reset_true (acts : List Act) (i : Nat)
   refine ⟨{ a with accepted := false }, ⟨⟨a, ha, by simp⟩, by simp [hc]⟩, hi⟩
 
 theorem isCand_reset_true (acts : List Act) (i : Nat)
+    (hall : ∀ a ∈ acts, isCompleted a.state = true)
     (h : ∃ a ∈ acts, a.idx = i ∧ isCompleted a.state = true) :
     isCand (resetActs true acts) i = true := by
   unfold isCand
-  rw [unaccIdx_reset_true acts i h, accIdx_reset_true]
-  simp
-
+  rw [unaccIdx_reset_true acts i h, taken_reset_true acts i hall]
+  rfl
 
 theorem mem_reset_firstRun (outs : List St) (a : Act) :
     a ∈ resetActs false (firstRun outs) ↔
@@ -249,12 +359,15 @@ theorem mem_reset_firstRun (outs : List St) (a : Act) :
 theorem isCand_reset_false_firstRun (outs : List St) (i : Nat) (s : St) (hi : outs[i]? = some s)
     (hc : isCompleted s = true) :
     isCand (resetActs false (firstRun outs)) i = failedSt s := by
-  unfold isCand unaccIdx accIdx
+  have hinf := completed_not_inflight s hc
+  unfold isCand
   cases hf : failedSt s
-  · simp only [Bool.and_eq_false_iff]
+  · -- every execution of item i is accepted: not in the unaccepted list
+    simp only [Bool.and_eq_false_iff]
     left
     rw [Bool.eq_false_iff]
     intro hm
+    unfold unaccIdx at hm
     simp only [List.contains_iff_mem, List.mem_map, List.mem_filter] at hm
     obtain ⟨a, ⟨ha, ha2⟩, rfl⟩ := hm
     obtain ⟨s', h1, h2, h3⟩ := (mem_reset_firstRun outs a).mp ha
@@ -262,15 +375,17 @@ theorem isCand_reset_false_firstRun (outs : List St) (i : Nat) (s : St) (hi : ou
     simp [h3, hf] at ha2
   · simp only [Bool.and_eq_true, Bool.not_eq_true']
     constructor
-    · simp only [List.contains_iff_mem, List.mem_map, List.mem_filter]
-      refine ⟨⟨i, s, false⟩, ⟨(mem_reset_firstRun outs _).mpr ⟨s, hi, rfl, by simp [hf]⟩, by simp [hc]⟩, rfl⟩
-    · rw [Bool.eq_false_iff]
-      intro hm
-      simp only [List.contains_iff_mem, List.mem_map, List.mem_filter] at hm
-      obtain ⟨a, ⟨ha, ha2⟩, rfl⟩ := hm
+    · unfold unaccIdx
+      simp only [List.contains_iff_mem, List.mem_map, List.mem_filter]
+      exact ⟨⟨i, s, false⟩, ⟨(mem_reset_firstRun outs _).mpr ⟨s, hi, rfl, by simp [hf]⟩, by simp [hc]⟩, rfl⟩
+    · unfold taken
+      rw [List.any_eq_false]
+      intro a ha
       obtain ⟨s', h1, h2, h3⟩ := (mem_reset_firstRun outs a).mp ha
-      rw [hi] at h1; cases h1
-      simp [h3, hf] at ha2
+      by_cases hai : a.idx = i
+      · rw [hai, hi] at h1; cases h1
+        simp [h3, hf, h2, hinf.1, hinf.2]
+      · simp [hai]
 
 theorem chainWfs_head (w : World) (fuel j : Nat) (wf : Wf) (hf : 0 < fuel)
     (h : w.wfs[j]? = some wf) : ∃ rest, chainWfs (chain w fuel j) = j :: rest := by
